@@ -13,7 +13,7 @@ TRUSTED = [
     "model: lean/RpyModel/Dataflow.lean (readFb / forwardF / loadProxys / enterFeedback / stepM / shiftForced / runSeq / callModel)",
     "theorems: lean/RpyProofs/Props/C05.lean (proxies frozen during a step; feedback value fixed at step start wherever the sender stands; every free-running step starts synced, so it is the sender's state of step t-1; forced value read and consumed once; the shift: zero, then Y[t-1], or Y[t])",
     "sub-model senders and list senders are NOT in the model (findings K1, K10): exercised by witnesses only",
-    "teacher-forced fit / train paths are covered by C06's harness",
+    "teacher-forced offline fit (targets as forced feedback, zero at the first step of each sequence) is exercised through C06's fit harness on the feedback topologies",
 ]
 
 KINDS = ["identity", "relu", "plainlinear", "plainlinear", "reservoir", "delay"]
@@ -353,7 +353,21 @@ def run(ctx):
         check_case(ctx, c)
     for _ in range(ctx.n(150, 2000)):
         check_case(ctx, gen_case(g))
+    # forced by target values during offline fitting (second sentence of the property): the
+    # teacher-forced fit cases of C06's harness (feedback from a readout of the same or of a later stage)
+    from . import c06
+    k = 0
+    while k < ctx.n(30, 400):
+        c = c06.gen_fit_case(g)
+        if c["fb"]:
+            c06.check_fit(ctx, c)
+            k += 1
 
 
 def replay(ctx, data):
-    check_case(ctx, data["case"])
+    if data["case"].get("kind") == "fit":
+        from . import c06
+        common.quiet()
+        c06.check_fit(ctx, data["case"])
+    else:
+        check_case(ctx, data["case"])
